@@ -30,6 +30,9 @@ func initNets() {
 		mk("customA", 0x1e, 0x9e, [4]byte{0x02, 0xfa, 0xc3, 0x98}, [4]byte{0x02, 0xfa, 0xca, 0xfd}),
 		mk("mainnet", 0x30, 0xb0, [4]byte{0x01, 0x9d, 0x9c, 0xfe}, [4]byte{0x01, 0x9d, 0xa4, 0x62}), // a custom network that is *named* mainnet
 		mk("customC", 0xff, 0x01, [4]byte{0xde, 0xad, 0xbe, 0xef}, [4]byte{0xfe, 0xed, 0xfa, 0xce}),
+		// networks that SHARE an address prefix / WIF byte with an already registered one but have their own HD version bytes
+		mk("signet-like", 0x6f, 0xef, [4]byte{0x04, 0x5f, 0x18, 0xbc}, [4]byte{0x04, 0x5f, 0x1c, 0xf6}),
+		mk("hd-only", 0x00, 0x80, [4]byte{0x0a, 0x0b, 0x0c, 0x0d}, [4]byte{0x1a, 0x1b, 0x1c, 0x1d}),
 	}
 	for _, n := range nets[2:] {
 		_ = chaincfg.Register(n.params)
@@ -176,3 +179,53 @@ func execXk(netsS, rootS, opsS string) string {
 	}
 	return "ok " + out
 }
+
+
+// xk.sweep <seedhex> <net> <from> <count>: for each normal index i the compressed public key of
+// Neuter(Child_i(m)) and of Child_i(Neuter(m)) — a compact way to visit hundreds of derived keys (public
+// keys whose X has leading zero bytes, short scalars, ...) on both derivation routes.
+func execXkSweep(a []string) string {
+	if len(a) != 4 {
+		return "bad-op"
+	}
+	seed, ok := unhex(a[0])
+	n, e1 := strconv.Atoi(a[1])
+	from, e2 := strconv.ParseUint(a[2], 10, 32)
+	count, e3 := strconv.Atoi(a[3])
+	if !ok || e1 != nil || e2 != nil || e3 != nil || n < 0 || n >= len(nets) || count < 0 || count > 5000 {
+		return "bad-op"
+	}
+	m, err := bip32.NewMaster(seed, nets[n].params)
+	if err != nil {
+		return "err"
+	}
+	pm, err := m.Neuter()
+	if err != nil {
+		return "err"
+	}
+	var sb strings.Builder
+	sb.WriteString("ok")
+	keyOf := func(k *bip32.ExtendedKey, err error) string {
+		if err != nil {
+			return "e"
+		}
+		pk, err := k.ECPubKey()
+		if err != nil {
+			return "x" + hx([]byte(k.String()))
+		}
+		return hx(pk.SerialiseCompressed()) + "." + strconv.FormatUint(uint64(k.ParentFingerprint()), 16)
+	}
+	for i := uint32(from); i < uint32(from)+uint32(count); i++ {
+		c, err := m.Child(i)
+		var a1 string
+		if err != nil {
+			a1 = "e"
+		} else {
+			a1 = keyOf(c.Neuter())
+		}
+		sb.WriteString(" " + a1 + ":" + keyOf(pm.Child(i)))
+	}
+	return sb.String()
+}
+
+func init() { extraOps["xk.sweep"] = execXkSweep }
